@@ -743,6 +743,7 @@ func c20engine(out *rec.Out, builder, file string, k int, conc bool, stats map[s
 
 func c20(out *rec.Out, rng *rec.Rng, tier string, stats map[string]int) {
 	thorough := tier == "thorough"
+	out.MaxCaseLines = 4000000 // the cases of this family ARE long id streams (hundreds of thousands of lines)
 	// 1. single goroutine, 1..8 generators, snapshot/restore
 	nSingle := 24
 	if thorough {
